@@ -66,7 +66,7 @@ def run(ctx):
                     one_shot = lt == "DirectedEdge" and (len(rows[0]) + len(keys)) % 2 == 0     # rows given as one-shot iterators (the docstring allows any iterable)
                     adj = DictV([[V[k], (IterV([V[x] for x in row]) if one_shot else Seq([V[x] for x in row], "list"))] for k, row in zip(keys, rows)])
                     pre = snapshot(V)
-                    out = h.call(fdict, adj, h.cls(lt)) if lt != "UnDirectedEdge" else h.call(fdict, adj)   # UnDirectedEdge is the documented default
+                    out = h.call(fdict, adj, h.cls(lt))
                 except Unknown as u:
                     res.ob(False)
                     res.undecide(f"{DICT_FN} keys={keys} rows={rows} {lt}: {u}")
@@ -106,7 +106,7 @@ def run(ctx):
                     mat = Seq([Seq(r, kind) for r in rows], kind)
                     vs = Seq([V[x] for x in names], kind)
                     pre = snapshot(V)
-                    out = h.call(fmat, mat, vs, h.cls(lt)) if lt != "DirectedEdge" else h.call(fmat, mat, vs)
+                    out = h.call(fmat, mat, vs, h.cls(lt))
                 except Unknown as u:
                     res.ob(False)
                     res.undecide(f"{MAT_FN} size={size} cells={cell} {lt}: {u}")
